@@ -1,0 +1,27 @@
+// SPDX-FileCopyrightText: 2020-present Open Networking Foundation <info@opennetworking.org>
+//
+// SPDX-License-Identifier: Apache-2.0
+
+//go:build verif
+
+package target
+
+import (
+	"github.com/onosproject/onos-config/pkg/southbound/gnmi"
+	"github.com/onosproject/onos-config/pkg/store/topo"
+)
+
+// NewReconcilerForVerif exposes the Reconciler to the verification harness
+func NewReconcilerForVerif(topo topo.Store, conns gnmi.ConnManager) *Reconciler {
+	return &Reconciler{conns: conns, topo: topo}
+}
+
+// NewConnWatcherForVerif exposes the ConnWatcher to the verification harness
+func NewConnWatcherForVerif(conns gnmi.ConnManager) *ConnWatcher {
+	return &ConnWatcher{conns: conns}
+}
+
+// NewTopoWatcherForVerif exposes the TopoWatcher to the verification harness
+func NewTopoWatcherForVerif(topo topo.Store) *TopoWatcher {
+	return &TopoWatcher{topo: topo}
+}
